@@ -4,4 +4,5 @@ use vx::Ctx;
 use identity_jose::jwk::Jwk;
 pub fn entries() -> Vec<Entry> { vec![] }
 pub fn jwk_accessors(_k: &Jwk) {}
+pub fn iota_document_accessors(_d: &identity_iota_core::IotaDocument) {}
 pub fn generate(_ctx: &Ctx) {}
